@@ -233,10 +233,10 @@ def analyse_templates(ctx):
 def r1_r2_r3(ctx, state):
     F = ctx.facts
     sums, fns, res, entered = analyse_templates(ctx)
-    ctx.floor("C16.R1", "Component implementations summarised", len(sums), 89)
-    ctx.floor("C16.R1", "template constructors in src/heuristics", len(fns), 35)
+    ctx.floor("C16.R1", "Component implementations summarised", len(sums), 80)
+    ctx.floor("C16.R1", "template constructors in src/heuristics", len(fns), 30)
     full = [r for r in res if r[2]]
-    ctx.floor("C16.R1", "complete templates (return a Configuration)", len({r[0].key for r in full}), 21)
+    ctx.floor("C16.R1", "complete templates (return a Configuration)", len({r[0].key for r in full}), 18)
     builders = [f for f in fns if "configuration::Configuration<" not in f.sig["output"]]
     for b in builders:
         ctx.check(b.key in entered, "C16.R1", b.key, "reached", "generic builder %s is not used by any complete template (its body is analysed through them)" % b.key, loc=b.loc())
@@ -327,7 +327,7 @@ def r5_guards(ctx):
     out, stats, S = k4.guard_conflicts(F)
     ctx.count("k4_bodies_with_guards", stats["bodies"])
     ctx.count("k4_guards", stats["guards"])
-    ctx.floor("C16.R5", "bodies holding registry guards", stats["bodies"], 60)
+    ctx.floor("C16.R5", "bodies holding registry guards", stats["bodies"], 40)
     seen = set()
     for fn, g, c in out:
         key = (fn.key, g[0], c[1])
@@ -402,7 +402,7 @@ def r8_state_keys(ctx):
                               "%s accesses %s: this names the instantiation %s, not the component's own type %s, so the state this instance inserted is never the one it reads"
                               % (ff.get("name"), ty, wrong[0] if wrong else "", self_ty), loc=g.loc(t.get("line")))
     ctx.count("own_state_accesses", n)
-    ctx.floor("C16.R8", "accesses to state keyed by the component's own type", n, 22)
+    ctx.floor("C16.R8", "accesses to state keyed by the component's own type", n, 15)
 
 
 # ------------------------------------------------------------------ R7: the components the templates are made of complete
